@@ -178,7 +178,8 @@ def _generic_param2ast(param):
             try:
                 parsed_default = (
                     set_value(_param["default"])
-                    if (
+                    if _param["default"] == ""  # the empty string is a value, not source code
+                    or (
                         _param["default"] is None
                         or isinstance(_param["default"], (float, int, str))
                     )
